@@ -189,6 +189,15 @@ def run(ctx: Context) -> None:
             ok = (texts == ['[values[0] - first_gap / 2]', '(values[1:] + values[:-1]) / 2', '[values[-1] + last_gap / 2]']
                   and gaps == {'first_gap': 'values[1] - values[0]', 'last_gap': 'values[-1] - values[-2]'})
             detail = f"pieces {texts}; gaps {gaps}"
+            if not ok and len(pieces) == 3:
+                # the same three pieces with the gaps and the values under other names (or written out): compared with every local spelled out
+                from ..pattern import Matcher as _M1
+                from .common import expand_locals as _x1
+                m1 = _M1(ctx, b1)
+                full = [_x1(flow1, node) for _, _, node in pieces]
+                ok = bool(m1.match('[$$v[0] - ($$v[1] - $$v[0]) / 2]', full[0]) and m1.match('($$v[1:] + $$v[:-1]) / 2', full[1])
+                          and m1.match('[$$v[-1] + ($$v[-1] - $$v[-2]) / 2]', full[2])) and norm_text(_x1(flow1, full[1].left.left.value)) == 'coordinate.values'
+                detail = f"pieces {[norm_text(f)[:70] for f in full]}"
         ctx.check('R06.3', ok, "midpoints = [v0 - gap0/2] + pairwise means + [vN + gapN/2] (both ends extended by half the adjacent gap)", b1, b1.node,
                   construct=f"1-D midpoints: {detail}")
         # 2-D synthesis
